@@ -489,6 +489,29 @@ theorem commit_store (f : Facts) (s : State) (i : Bid) (sf : Bool) (h : StoreInv
             | none => exact hinv
             | some m => exact hinv
 
+theorem budget_st (s : State) (a : Acct) (amt : Nat) : (budget s a amt).1.st = s.st := by
+  unfold budget
+  cases s.mem a <;> dsimp only <;> split <;> rfl
+
+theorem spend_st (s : State) (i : Bid) (u : Usage) : (spend s i u).1.st = s.st := by
+  unfold spend
+  cases s.budgets[i]? <;> dsimp only
+  split <;> rfl
+
+theorem refund_st (s : State) (i : Bid) (u : Usage) : (refund s i u).1.st = s.st := by
+  unfold refund
+  cases s.budgets[i]? <;> dsimp only
+  split
+  · rfl
+  · split <;> rfl
+
+theorem rollback_st (s : State) (i : Bid) : (rollback s i).1.st = s.st := by
+  unfold rollback
+  cases s.budgets[i]? <;> dsimp only
+  split
+  · rfl
+  · cases s.mem _ <;> rfl
+
 /-- The persisted ledger invariant (balance = deposits − withdrawals ≥ 0, metrics, funding rows)
 is preserved by EVERY operation, including RHP4 debits on keys with open RHP3 budgets. -/
 theorem step_store (f : Facts) (s : State) (op : Op) (h : StoreInv f s.st) (hop : OpWF op) :
@@ -502,29 +525,11 @@ theorem step_store (f : Facts) (s : State) (op : Op) (h : StoreInv f s.st) (hop 
       cases he : s.st.credit3 a c amt cost with
       | none => exact h
       | some st' => exact credit3_inv f _ _ _ _ _ _ h he
-  | budget a amt =>
-    simp only [step, budget]
-    split <;> exact h
-  | spend i u =>
-    simp only [step, spend]
-    split
-    · exact h
-    · split <;> exact h
-  | refund i u =>
-    simp only [step, refund]
-    split
-    · exact h
-    · split
-      · exact h
-      · split <;> exact h
+  | budget a amt => simp only [step]; rw [budget_st]; exact h
+  | spend i u => simp only [step]; rw [spend_st]; exact h
+  | refund i u => simp only [step]; rw [refund_st]; exact h
   | commit i sf => exact commit_store f s i sf h
-  | rollback i =>
-    simp only [step, rollback]
-    split
-    · exact h
-    · split
-      · exact h
-      · split <;> exact h
+  | rollback i => simp only [step]; rw [rollback_st]; exact h
   | rhp4credit c deps u =>
     simp only [step, rhp4credit]
     cases he : s.st.credit4 c deps u with
@@ -555,7 +560,7 @@ both protocols mixed freely, any facts) every account's balance equals the sum o
 deposits minus the sum of the committed withdrawals; in particular it is never negative. -/
 theorem balance_eq_ledger (f : Facts) (n1 n2 : Nat) (ops : List Op) (hw : RunWF ops) (a : Acct) :
     (run f (init n1 n2) ops).st.bal a + (run f (init n1 n2) ops).st.wd a = (run f (init n1 n2) ops).st.dep a :=
-  (run_store f ops _ (storeInv_init f n1 n2) hw).led a
+  (run_store f ops (init n1 n2) (storeInv_init f n1 n2) hw).led a
 
 /-! ### reservations -/
 
@@ -635,9 +640,17 @@ theorem budget_iff (f : Facts) (s : State) (h : Good f s) (a : Acct) (x : Nat) :
 theorem failed_reservation_refunds (s : State) (a : Acct) (x : Nat) (h : (budget s a x).2 ≠ .ok) :
     (budget s a x).1 = s := by
   unfold budget at h ⊢
-  split
-  · rfl
-  · rename_i hlt; simp [hlt] at h
+  cases hm : s.mem a with
+  | none =>
+    simp only [hm] at h ⊢
+    by_cases hlt : s.st.bal a < x
+    · simp [hlt]
+    · simp [hlt] at h
+  | some m =>
+    simp only [hm] at h ⊢
+    by_cases hlt : m.balance < x
+    · simp [hlt]
+    · simp [hlt] at h
 
 /-! ### commit and rollback -/
 
@@ -708,15 +721,15 @@ theorem rollback_refunds (f : Facts) (s : State) (h : Good f s) (i : Bid) (b : B
   cases hm : s.mem b.acct with
   | none => have := (h.mem.none _ hm).1; omega
   | some m =>
-    have hr : rollback s i = ({ s with budgets := s.budgets.set i { b with closed := true },
-                  mem := release s.mem b.acct m b.max,
-                  stale := if m.openTxns - 1 = 0 then upd s.stale b.acct 0 else s.stale }, .ok) := by
+    have hr : rollback s i = (⟨s.st, release s.mem b.acct m b.max, s.budgets.set i ⟨b.acct, b.max, b.usage, true⟩,
+                  if m.openTxns - 1 = 0 then upd s.stale b.acct 0 else s.stale⟩, .ok) := by
       unfold rollback
       simp [hi, hc, hm]
     rw [hr] at hs' ⊢
+    dsimp only at hs' ⊢
     have h1 := resv_set b.acct { b with closed := true } s.budgets i b hi
     simp [Budget.w, hc] at h1
-    refine ⟨rfl, rfl, by simp only; omega, ?_⟩
+    refine ⟨rfl, rfl, by omega, ?_⟩
     intro hz
     have hst : (if m.openTxns - 1 = 0 then upd s.stale b.acct 0 else s.stale) b.acct = 0 := by
       by_cases hq : m.openTxns - 1 = 0 <;> simp [hq, hz]
@@ -728,13 +741,13 @@ theorem rollback_refunds (f : Facts) (s : State) (h : Good f s) (i : Bid) (b : B
 /-- **metrics_eq/activeAccounts** — unconditional: the metric counts the account rows -/
 theorem metrics_active_eq (f : Facts) (n1 n2 : Nat) (ops : List Op) (hw : RunWF ops) :
     (run f (init n1 n2) ops).st.mActive = (run f (init n1 n2) ops).st.accts.length :=
-  (run_store f ops _ (storeInv_init f n1 n2) hw).accts.active
+  (run_store f ops (init n1 n2) (storeInv_init f n1 n2) hw).accts.active
 
 /-- **metrics_eq/accountBalance** for a tree in which `RHP4DebitAccount` lowers the metric
 (`Facts.repaired`): the metric equals the sum of all balances in every reachable state. -/
 theorem metrics_eq (f : Facts) (hf : f.rhp4DebitMetric = true) (n1 n2 : Nat) (ops : List Op) (hw : RunWF ops) :
     (run f (init n1 n2) ops).st.mBalance = sumBal (run f (init n1 n2) ops).st.bal (run f (init n1 n2) ops).st.accts := by
-  have := (run_store f ops _ (storeInv_init f n1 n2) hw).metric
+  have := (run_store f ops (init n1 n2) (storeInv_init f n1 n2) hw).metric
   simpa [hf] using this
 
 /-- what holds on the current tree: the metric exceeds the sum of the balances by exactly the
@@ -744,7 +757,158 @@ theorem metrics_eq_partial (n1 n2 : Nat) (ops : List Op) (hw : RunWF ops) :
     (run Facts.current (init n1 n2) ops).st.mBalance =
       sumBal (run Facts.current (init n1 n2) ops).st.bal (run Facts.current (init n1 n2) ops).st.accts +
       (run Facts.current (init n1 n2) ops).st.r4deb := by
-  have := (run_store Facts.current ops _ (storeInv_init Facts.current n1 n2) hw).metric
+  have := (run_store Facts.current ops (init n1 n2) (storeInv_init Facts.current n1 n2) hw).metric
   simpa [Facts.current] using this
+
+/-! ### no operation panics (except the documented `Refund` misuse) -/
+
+/-- In a state satisfying the invariant no operation other than `Refund` (whose panics on a
+committed budget / on refunding more than was spent are documented) hits a panic: no
+`Currency.Sub` underflows in the store, no "account missing from memory". -/
+theorem no_panic (f : Facts) (s : State) (op : Op) (h : Good f s) (hop : OpOK s op)
+    (hr : ∀ i u, op ≠ .refund i u) : (step f s op).2 ≠ .panic := by
+  cases op with
+  | credit a c amt cost r mb =>
+    simp only [step, credit]
+    by_cases hx : (!r && decide (mb < getBalance s a + amt)) = true
+    · simp [hx]
+    · simp only [hx, Bool.false_eq_true, ↓reduceIte]
+      cases s.st.credit3 a c amt cost <;> simp
+  | budget a amt =>
+    simp only [step, budget]
+    cases s.mem a <;> dsimp only <;> split <;> simp
+  | spend i u =>
+    simp only [step, spend]
+    cases s.budgets[i]? <;> dsimp only
+    · simp
+    · split <;> simp
+  | refund i u => exact absurd rfl (hr i u)
+  | commit i sf =>
+    simp only [step]
+    unfold commit
+    cases hi : s.budgets[i]? with
+    | none => simp
+    | some b =>
+      dsimp only
+      by_cases hc : b.closed = true
+      · rw [if_pos hc]; simp
+      · rw [if_neg hc]
+        by_cases hsf : sf = true
+        · rw [if_pos hsf]; simp
+        · rw [if_neg hsf]
+          have hcf : b.closed = false := by simpa using hc
+          have hnp := debit3_no_panic f s.st b.acct b.usage h.store
+          cases hd : s.st.debit3 b.acct b.usage with
+          | mk st' out =>
+            rw [hd] at hnp
+            cases out with
+            | missing => simp
+            | insufficient => simp
+            | panic => exact absurd rfl hnp
+            | ok =>
+              dsimp only
+              obtain ⟨hpos, _⟩ := open_counted s i b hi hcf
+              cases hm : s.mem b.acct with
+              | none => have := (h.mem.none _ hm).1; omega
+              | some m => simp
+  | rollback i =>
+    simp only [step]
+    unfold rollback
+    cases hi : s.budgets[i]? with
+    | none => simp
+    | some b =>
+      dsimp only
+      by_cases hc : b.closed = true
+      · rw [if_pos hc]; simp
+      · rw [if_neg hc]
+        have hcf : b.closed = false := by simpa using hc
+        obtain ⟨hpos, _⟩ := open_counted s i b hi hcf
+        cases hm : s.mem b.acct with
+        | none => have := (h.mem.none _ hm).1; omega
+        | some m => simp
+  | rhp4credit c deps u =>
+    simp only [step, rhp4credit]
+    cases s.st.credit4 c deps u <;> simp
+  | rhp4debit a u =>
+    simp only [step, rhp4debit]
+    have hnp := debit4_no_panic f s.st a u h.store
+    cases hd : s.st.debit4 f a u with
+    | mk st' out =>
+      rw [hd] at hnp
+      cases out with
+      | panic => exact absurd rfl hnp
+      | missing => simp
+      | insufficient => simp
+      | ok => simp
+
+/-! ### what the current code violates: concrete witnesses (replayed on the implementation by
+`corpus/accounts/*.trace`) -/
+
+/-- RHP4 deposit of 10, RHP4 debit of 4 -/
+def witnessMetric : List Op :=
+  [.rhp4credit 0 [(0, 10)] { accountFunding := 10 }, .rhp4debit 0 { storage := 4 }]
+
+/-- **negation of metrics_eq/accountBalance on the current tree**: after an RHP4 debit the
+metric (10) differs from the sum of the balances (6). -/
+theorem metrics_eq_fails_on_current_tree :
+    (run Facts.current (init 0 1) witnessMetric).st.mBalance = 10 ∧
+    sumBal (run Facts.current (init 0 1) witnessMetric).st.bal (run Facts.current (init 0 1) witnessMetric).st.accts = 6 := by
+  decide
+
+/-- the same history on the repaired tree: 6 = 6 -/
+theorem metrics_eq_holds_when_repaired :
+    (run Facts.repaired (init 0 1) witnessMetric).st.mBalance = 6 ∧
+    sumBal (run Facts.repaired (init 0 1) witnessMetric).st.bal (run Facts.repaired (init 0 1) witnessMetric).st.accts = 6 := by
+  decide
+
+/-- balance 10, RHP3 budget reserves 8, RHP4 debit of 5 on the same key -/
+def witnessMixed : List Op :=
+  [.rhp4credit 0 [(0, 10)] { accountFunding := 10 }, .budget 0 8, .rhp4debit 0 { storage := 5 }]
+
+/-- **negation of no_overdraft / budget_iff for mixed-protocol keys** (any facts): the RHP4 debit
+is accepted although balance − reservations = 2 < 5; afterwards 8 are reserved against a balance
+of 5, the manager reports a spendable balance of 2 while the store holds 5, and committing the
+fully reserved budget fails in the store. -/
+theorem mixed_protocol_breaks_ledger (f : Facts) :
+    let s := run f (init 0 1) witnessMixed
+    resv 0 s.budgets = 8 ∧ s.st.bal 0 = 5 ∧ getBalance s 0 = 2 ∧
+    (step f (step f s (.spend 0 { storage := 8 })).1 (.commit 0 false)).2 = .err := by
+  cases f with
+  | mk b => cases b <;> decide
+
+/-- hence the state reached is outside the invariant: the exclusion in `ledger_inv_partial` is necessary -/
+theorem mixed_protocol_not_good (f : Facts) : ¬ Good f (run f (init 0 1) witnessMixed) := by
+  intro h
+  have h1 := no_overdraft f _ h 0
+  have h2 := mixed_protocol_breaks_ledger f
+  simp only at h2
+  omega
+
+/-! ### non-vacuity: the hypotheses are met by concrete non-trivial states -/
+
+/-- credit 10 (cap 100), two budgets, spending incl. registry categories, one commit, one rollback -/
+def sample : List Op :=
+  [.credit 0 0 10 1 false 100, .budget 0 6, .budget 0 3, .spend 0 { storage := 3, registryRead := 2 },
+   .commit 0 false, .rollback 1]
+
+example : RunOK Facts.current (init 1 1) sample := ⟨trivial, trivial, trivial, trivial, trivial, trivial, trivial⟩
+example : RunWF sample := ⟨trivial, trivial, trivial, trivial, trivial, trivial, trivial⟩
+example : Good Facts.current (run Facts.current (init 1 1) sample) :=
+  ledger_inv_partial _ _ _ (good_init _ 1 1) ⟨trivial, trivial, trivial, trivial, trivial, trivial, trivial⟩
+-- after the first four operations: budget 0 is open with 5 of 6 spent, the account exists (hypotheses of `commit_exact`, `rollback_refunds`)
+example : (run Facts.current (init 1 1) (sample.take 4)).budgets[0]? =
+    some ⟨0, 6, { storage := 3, registryRead := 2 }, false⟩ ∧ 0 ∈ (run Facts.current (init 1 1) (sample.take 4)).st.accts := by decide
+-- and the result: 10 − 5 = 5 persisted, nothing reserved any more
+example : (run Facts.current (init 1 1) sample).st.bal 0 = 5 ∧ resv 0 (run Facts.current (init 1 1) sample).budgets = 0 ∧
+    getBalance (run Facts.current (init 1 1) sample) 0 = 5 := by decide
+-- budget_iff at the boundary: with 10 held and 6 + 3 reserved exactly 1 more can be reserved
+example : (budget (run Facts.current (init 1 1) (sample.take 3)) 0 1).2 = .ok ∧
+    (budget (run Facts.current (init 1 1) (sample.take 3)) 0 2).2 = .insufficient := by decide
+-- mixed protocol use that IS covered by the theorem: RHP4 deposit while an RHP3 budget is open, RHP4 debit after it closed
+example : RunOK Facts.current (init 1 1)
+    [.credit 0 0 5 0 false 100, .budget 0 5, .rhp4credit 0 [(0, 7)] { accountFunding := 7 }, .rollback 0, .rhp4debit 0 { egress := 12 }] := by
+  refine ⟨trivial, trivial, rfl, trivial, ?_, trivial⟩
+  show State.mem _ 0 = none
+  decide
 
 end Hostd.Accounts
